@@ -444,6 +444,45 @@ Theorem C01_download_path_exact : forall C (ctm : timing C) off content block fo
 Proof. exact gen_download_path_exact. Qed.
 Print Assumptions C01_download_path_exact.
 
+(* ---- how the CALLER consumes what it is handed (round 7) ----
+   "whatever the way either side chunks its reads": the client API hands the caller a stream (download_stream /
+   get_stream) or a path-io file object; the caller may take blocks with iter_by_block(n) with changing n, leave a
+   loop before EOF (`break` after a header block), resume it, go on with read(k) / read() or a second loop.  A
+   consumption PROGRAM is any list of CIter block k oracles / CRead n oracle steps, ended by a final read().
+   `iter_take` is the denotation of today's AsyncStreamIterator (one `read_coro()` per __anext__ and nothing else:
+   fact xf_iter_anext, pinned by C01_source_facts / check_xfer_shapes). *)
+Theorem C01_retr_consumption_program_exact : forall table off content block foracle segs wire prog,
+  retr_table_ok table -> 1 <= block ->
+  retr_worker table off content block foracle = Some wire ->
+  concat segs = wire ->
+  Forall cop_ok prog ->
+  sock_consume prog segs = spec_retr off content.
+Proof. exact retr_consume_exact. Qed.
+Print Assumptions C01_retr_consumption_program_exact.
+
+Theorem C01_consumption_program_irrelevant : forall segs prog1 prog2,
+  Forall cop_ok prog1 -> Forall cop_ok prog2 -> sock_consume prog1 segs = sock_consume prog2 segs.
+Proof. exact retr_consume_program_irrelevant. Qed.
+Print Assumptions C01_consumption_program_irrelevant.
+
+(* a path-io file object (the source side of upload(), the server's RETR): from the position on, exactly the file *)
+Theorem C01_file_consumption_program_exact : forall prog h,
+  Forall cop_ok prog -> file_consume prog h = skipn (h_pos h) (h_content h).
+Proof. exact file_consume_exact. Qed.
+Print Assumptions C01_file_consumption_program_exact.
+
+(* the old single-loop statement is the program [CIter cblock (enough) oracle]; and the dimension is not idle: an
+   iterator that has already started the next read when it hands out a block loses that block when the loop is left *)
+Example C01_consumption_program_nonvacuous :
+  Forall cop_ok [CIter 2 1 [(1, 1)]; CRead 3 (0, 9); CIter 1 2 []]
+  /\ sock_consume [CIter 2 1 [(1, 1)]; CRead 3 (0, 9); CIter 1 2 []] [[1; 2; 3]; [4; 5]; [6; 7; 8; 9]]%Z
+     = [1; 2; 3; 4; 5; 6; 7; 8; 9]%Z.
+Proof. split; [repeat constructor|vm_compute; reflexivity]. Qed.
+Example C01_prefetching_iterator_loses_a_block :
+  consume_with _ _ sock_rd sock_rest (iter_take_prefetching _ _ sock_rd (0, 0)) [CIter 2 1 [(0, 2); (0, 2)]] ([], [[1;2;3;4;5;6;7]%Z])
+  = [1; 2; 5; 6; 7]%Z.
+Proof. exact prefetching_iterator_loses_a_block. Qed.
+
 (* ---- non-vacuity and necessity ---- *)
 (* the hypotheses are satisfiable: a 7-byte payload in three segments, block size 3, short reads *)
 Example C01_nonvacuous_stor :
